@@ -202,8 +202,13 @@ func harnesses(r *fw.Run) []fw.HarnessSpec {
 
 	// normalised hash: equivalence classes of external-in messages
 	add("normalized-hash-classes", r.Pick(2, 3), func(c *enum.Ctx) {
-		destK := c.ChooseFree(3)
-		dest := te.Addr{Kind: 2, WC: []int32{0, -1, 0}[destK], Bits: bits.Pattern(seed+destK, 256)}
+		destK := c.ChooseFree(4)
+		dest := te.Addr{Kind: 2, WC: []int32{0, -1, 0, 0}[destK], Bits: bits.Pattern(seed+destK, 256)}
+		if destK == 3 {
+			// a destination with anycast: whether normalisation keeps or drops the anycast prefix is not fixed by the
+			// statement; what is fixed is that all messages differing only in the ignored parts agree (judged below)
+			dest.Anycast = &te.Anycast{Depth: 3, Pfx: 5}
+		}
 		bi := c.ChooseFree(len(pl))
 		body := pl[bi]
 		// the varied, ignored parts
@@ -263,6 +268,28 @@ func harnesses(r *fw.Run) []fw.HarnessSpec {
 					return
 				}
 				want := canon.ReprHash()
+				if dest.Anycast != nil && (body.Special || body.Mask != 0) {
+					return // exotic / levelled bodies are judged with plain destinations (known findings there)
+				}
+				if dest.Anycast != nil {
+					// the class representative: the normalised hash tongo gives the canonical layout itself; it must be
+					// the hash of the canonical re-encoding with or without the anycast prefix
+					plain := dest
+					plain.Anycast = nil
+					canon2, err2 := te.Message{Info: te.Info{Kind: 1, Dest: plain}, Body: body, BodyRef: true}.Cell()
+					ct := parse(c, canon)
+					var cm tlb.Message
+					if err2 != nil || ct == nil || tlb.Unmarshal(ct, &cm) != nil {
+						c.Skip()
+						return
+					}
+					rep := cm.Hash(true)
+					if rep != tlb.Bits256(canon.ReprHash()) && rep != tlb.Bits256(canon2.ReprHash()) {
+						c.Fail("normalized-hash:anycast-canonical", "Hash(true) of the canonical layout with an anycast destination is %x: neither the hash of that cell nor of the same message without anycast", rep)
+						return
+					}
+					want = [32]byte(rep)
+				}
 				kind := "ordinary-body"
 				if body.Special {
 					kind = "exotic-body"
@@ -277,7 +304,7 @@ func harnesses(r *fw.Run) []fw.HarnessSpec {
 				}
 				// separation: another destination / another body must give another normalised hash
 				for _, alt := range []te.Message{
-					{Info: te.Info{Kind: 1, Dest: te.Addr{Kind: 2, WC: dest.WC ^ 1, Bits: dest.Bits}}, Body: body, BodyRef: true},
+					{Info: te.Info{Kind: 1, Dest: te.Addr{Kind: 2, WC: dest.WC ^ 1, Bits: dest.Bits, Anycast: dest.Anycast}}, Body: body, BodyRef: true},
 					{Info: te.Info{Kind: 1, Dest: dest}, Body: pl[(bi+1)%4], BodyRef: true},
 				} {
 					ac, err := alt.Cell()
@@ -292,6 +319,72 @@ func harnesses(r *fw.Run) []fw.HarnessSpec {
 					if am.Hash(true) == got.Hash(true) && ac.ReprHash() != canon.ReprHash() {
 						c.Fail("normalized-hash-collision", "messages with different destination/body share a normalised hash")
 					}
+				}
+			}
+		})
+	})
+
+	// one Go value decoded into repeatedly: what it reports must always describe the cell decoded last
+	add("value-reuse-sequences", 0, func(c *enum.Ctx) {
+		mk := func(k int) *cell.Cell {
+			m := te.Message{Info: te.Info{Kind: 1, Dest: te.Addr{Kind: 2, WC: int32(k % 2), Bits: bits.Pattern(seed+k, 256)}}, Body: pl[k%4], BodyRef: k%2 == 0}
+			if k == 2 {
+				m.Info.Import = 77
+			}
+			w, err := m.Cell()
+			if err != nil {
+				return nil
+			}
+			return w
+		}
+		a, b2 := c.ChooseFree(4), c.ChooseFree(4)
+		touch := c.ChooseFree(4) // what is asked of the value between the two decodes: nothing, Hash(false), Hash(true), both
+		caching := c.ChooseFree(2) == 1
+		ca, cb := mk(a), mk(b2)
+		if ca == nil || cb == nil || a == b2 {
+			c.Skip()
+			return
+		}
+		c.Case([]byte(fmt.Sprintf("reuse-msg/%d/%d/%d/%v", a, b2, touch, caching)), true)
+		c.Label("decode message %d, touch %d, decode message %d into the same value (caching decoder %v)", a, touch, b2, caching)
+		c.Try("panic:reuse", func() {
+			var v tlb.Message
+			dec := func(x *cell.Cell) bool {
+				t := parse(c, x)
+				if t == nil {
+					return false
+				}
+				var err error
+				if caching {
+					err = tlb.NewDecoder().Unmarshal(t, &v)
+				} else {
+					err = tlb.Unmarshal(t, &v)
+				}
+				if err != nil {
+					c.Fail("decode-error", "%v", err)
+					return false
+				}
+				return true
+			}
+			if !dec(ca) {
+				return
+			}
+			if touch&1 != 0 {
+				_ = v.Hash(false)
+			}
+			if touch&2 != 0 {
+				_ = v.Hash(true)
+			}
+			if !dec(cb) {
+				return
+			}
+			if h := v.Hash(false); h != tlb.Bits256(cb.ReprHash()) {
+				c.Fail("reused-value-hash", "after decoding a second message into the same value Hash(false)=%x, the cell decoded last has %x", h, cb.ReprHash())
+			}
+			var fresh tlb.Message
+			if ft := parse(c, cb); ft != nil && tlb.Unmarshal(ft, &fresh) == nil {
+				if v.Hash(true) != fresh.Hash(true) {
+					c.Fail("reused-value-normalized-hash", "after decoding a second message into the same value Hash(true) differs from a freshly decoded one")
 				}
 			}
 		})
@@ -335,6 +428,53 @@ func harnesses(r *fw.Run) []fw.HarnessSpec {
 			if err != nil {
 				stats["not_a_block"]++
 				return
+			}
+			// one Transaction value decoded into repeatedly (the first transactions of the block, in order and reversed),
+			// SourceBoc asked in between: hash and source BOC must describe the transaction decoded last
+			{
+				var cellsInOrder []*cell.Cell
+				for _, tx := range blk.AllTransactions() {
+					if src, ok := txCells[[32]byte(tx.Hash())]; ok && len(cellsInOrder) < 4 {
+						cellsInOrder = append(cellsInOrder, src)
+					}
+				}
+				for pass := 0; pass < 2 && len(cellsInOrder) >= 2; pass++ {
+					var v tlb.Transaction
+					for k := range cellsInOrder {
+						src := cellsInOrder[k]
+						if pass == 1 {
+							src = cellsInOrder[len(cellsInOrder)-1-k]
+						}
+						t := parse(c, src)
+						if t == nil {
+							break
+						}
+						var err error
+						if caching {
+							err = tlb.NewDecoder().Unmarshal(t, &v)
+						} else {
+							err = tlb.Unmarshal(t, &v)
+						}
+						if err != nil {
+							c.Fail("reused-transaction-decode", "%v", err)
+							break
+						}
+						stats["reuse_decodes"]++
+						if [32]byte(v.Hash()) != src.ReprHash() {
+							c.Fail("reused-transaction-hash", "%s: after decoding transaction #%d into a reused value Hash() is not the hash of that cell", it.Origin, k)
+							break
+						}
+						sb, err := v.SourceBoc()
+						if err != nil {
+							c.Fail("source-boc-error", "%v", err)
+							break
+						}
+						if rr, err := rboc.Parse(sb); err != nil || len(rr) != 1 || rr[0].ReprHash() != src.ReprHash() {
+							c.Fail("reused-transaction-source-boc", "%s: after decoding transaction #%d into a reused value SourceBoc() does not parse to the cell decoded last", it.Origin, k)
+							break
+						}
+					}
+				}
 			}
 			for _, tx := range blk.AllTransactions() {
 				stats["transactions"]++
